@@ -139,6 +139,8 @@ class _Flattener:
         self.fn = fn_node
         self.text = text
         self.modname = modname
+        self.tree = tree
+        self.funcs = _funcs(tree) if tree is not None else {}
         # module-level string constants (format templates such as wfn.FMT_ATM)
         self.consts = {}
         if tree is not None:
@@ -187,6 +189,14 @@ class _Flattener:
             val = self.assign[node.id]
             if isinstance(val, (ast.JoinedStr, ast.BinOp, ast.Call)) or (isinstance(val, ast.Constant) and isinstance(val.value, str)):
                 got = self.flat(val, depth + 1)
+                if not (len(got) == 1 and got[0][0] == "opaque"):
+                    return got
+        if isinstance(node, ast.Call) and isinstance(node.func, ast.Name) and node.func.id in self.funcs and depth < 4:
+            # a module-level helper that only returns a formatted string: its record is the returned expression
+            helper = self.funcs[node.func.id]
+            body = [st for st in helper.body if not (isinstance(st, ast.Expr) and isinstance(st.value, ast.Constant))]
+            if len(body) == 1 and isinstance(body[0], ast.Return) and body[0].value is not None:
+                got = _Flattener(helper, self.text, self.modname, self.tree).flat(body[0].value, depth + 1)
                 if not (len(got) == 1 and got[0][0] == "opaque"):
                     return got
         if isinstance(node, ast.Call):
@@ -370,6 +380,58 @@ class Origin:
     def __init__(self):
         self.factors = []
         self.unknown = []
+        self.attrs = []  # attributes of the written object (data.<attr>) the printed value is taken from
+
+
+def identity(fld: "Field", org: "Origin" = None):
+    """A name for a printed field that does not depend on how local variables are called: the attribute(s) of the written
+    object the value comes from (by `trace`), else the source text of the expression."""
+    attrs = provenance(fld)
+    if len(attrs) > 3:
+        return "values"  # a shared helper that prints many attributes
+    if attrs:
+        return "+".join(sorted(attrs))
+    return fld.expr.replace(" ", "")[:24]
+
+
+def provenance(fld: "Field", max_depth=6):
+    """Attributes `data.<attr>` that the printed expression depends on, through any arithmetic, calls and local bindings
+    (flow-insensitive closure over the assignments and loop targets of the enclosing function and, for parameters, over
+    the arguments at the call sites in the same module)."""
+    if fld.node is None or not fld.module:
+        return []
+    tree, _ = source.module_ast(fld.module)
+    funcs = _funcs(tree)
+    found, seen = [], set()
+
+    def visit(expr, fn, depth):
+        if depth > max_depth:
+            return
+        for n in ast.walk(expr):
+            if isinstance(n, ast.Attribute) and isinstance(n.value, ast.Name) and n.value.id in ("data", "self"):
+                if n.attr not in found:
+                    found.append(n.attr)
+            elif isinstance(n, ast.Name) and isinstance(n.ctx, ast.Load) and fn is not None and (n.id, fn.name) not in seen:
+                seen.add((n.id, fn.name))
+                params = [a.arg for a in fn.args.args]
+                if n.id in params:
+                    k = params.index(n.id)
+                    for cfn in funcs.values():
+                        for call in ast.walk(cfn):
+                            if isinstance(call, ast.Call) and isinstance(call.func, ast.Name) and call.func.id == fn.name:
+                                if k < len(call.args):
+                                    visit(call.args[k], cfn, depth + 1)
+                                for kw in call.keywords:
+                                    if kw.arg == n.id:
+                                        visit(kw.value, cfn, depth + 1)
+                for sub in ast.walk(fn):
+                    if isinstance(sub, ast.Assign) and any(isinstance(t, ast.Name) and t.id == n.id or (isinstance(t, ast.Tuple) and any(isinstance(e, ast.Name) and e.id == n.id for e in t.elts)) for t in sub.targets):
+                        visit(sub.value, fn, depth + 1)
+                    elif isinstance(sub, (ast.For, ast.comprehension)) and any(isinstance(x, ast.Name) and x.id == n.id for x in ast.walk(sub.target)):
+                        visit(sub.iter, fn, depth + 1)
+
+    visit(fld.node, fld.fn, 0)
+    return found
 
 
 def _unit_names(modname):
@@ -445,6 +507,8 @@ def trace(fld: Field, exact_names=("signs",), max_depth=8):
             return
         if isinstance(node, ast.Attribute):
             if isinstance(node.value, ast.Name) and node.value.id in ("data", "self"):
+                if node.attr not in org.attrs:
+                    org.attrs.append(node.attr)
                 return
             walk(node.value, fn, depth)
             return
